@@ -88,11 +88,32 @@ var solvers = []solverSpec{
 	}, dialectCVC5},
 }
 
+func seeded(n int) func(string) string {
+	return func(s string) string {
+		return fmt.Sprintf("(set-option :smt.random_seed %d)\n(set-option :sat.random_seed %d)\n", n, n) + s
+	}
+}
+
+// extra configurations raced only when the first round gave no answer: the same
+// solvers with other random seeds (unstable quantifier instantiation is the usual
+// reason for a time-out on a provable goal)
+var moreSolvers = []solverSpec{
+	{"z3-new-5.1.0", func(f string, t int) []string { return []string{"z3-new", fmt.Sprintf("-T:%d", t), f} }, seeded(7)},
+	{"z3-new-5.1.0", func(f string, t int) []string { return []string{"z3-new", fmt.Sprintf("-T:%d", t), f} }, seeded(23)},
+	{"z3-new-5.1.0", func(f string, t int) []string { return []string{"z3-new", fmt.Sprintf("-T:%d", t), f} }, seeded(101)},
+	{"z3-4.8.12", func(f string, t int) []string { return []string{"z3", fmt.Sprintf("-T:%d", t), f} }, seeded(11)},
+	{"z3-4.8.12", func(f string, t int) []string { return []string{"z3", fmt.Sprintf("-T:%d", t), f} }, seeded(37)},
+}
+
 var smtFileCounter int
 var smtFileMu sync.Mutex
 
 // raceSolvers writes the script once per dialect and races all installed solvers.
 func raceSolvers(workdir, tag, script string, secs int, wantModel bool) SolveResult {
+	return raceWith(solvers, workdir, tag, script, secs, wantModel)
+}
+
+func raceWith(solvers []solverSpec, workdir, tag, script string, secs int, wantModel bool) SolveResult {
 	smtFileMu.Lock()
 	smtFileCounter++
 	n := smtFileCounter
@@ -104,10 +125,14 @@ func raceSolvers(workdir, tag, script string, secs int, wantModel bool) SolveRes
 		r SolveResult
 	}
 	ch := make(chan SolveResult, len(solvers))
-	for _, sv := range solvers {
+	for si, sv := range solvers {
 		sv := sv
+		si := si
 		go func() {
 			file := base + "." + strings.SplitN(sv.name, "-", 2)[0] + sv.name[len(sv.name)-1:] + ".smt2"
+			if si >= 3 || len(solvers) != 3 {
+				file = fmt.Sprintf("%s.c%d.smt2", base, si)
+			}
 			body := sv.prep(script + "(check-sat)\n")
 			if err := os.WriteFile(file, []byte(body), 0644); err != nil {
 				ch <- SolveResult{Status: "error", Solver: sv.name, Output: err.Error()}
